@@ -3,6 +3,7 @@
     lines of naturals. The parser is Gallina so that the extracted run and the
     in-Coq [vm_compute] run share it. *)
 From MB Require Import Model.Framework Model.Validate Model.Thresholds.
+From MB Require Model.Codec.Base64 Model.Codec.Bincode.
 Open Scope N_scope.
 
 Definition parser (A : Type) := list N -> option (A * list N).
@@ -216,8 +217,23 @@ Definition run_tcase (l : list N) : list (list N) :=
   | _ => [[99]]
   end.
 
+(** codec cases *)
+Definition run_ser (l : list N) : list (list N) :=         (* machine -> bincode bytes *)
+  match pmachine l with
+  | Some (m, []) => [N_of_bool (Bincode.wf_machineb m) :: Bincode.ser_machine m]
+  | _ => [[99]]
+  end.
+Definition run_b64enc (l : list N) : list (list N) := [Base64.b64_encode l].
+Definition run_b64dec (l : list N) : list (list N) :=
+  match Base64.b64_decode l with Some bs => [1 :: bs] | None => [[0]] end.
+Definition run_de (l : list N) : list (list N) :=          (* bytes -> machine, re-encoded *)
+  match Bincode.de_machine l with
+  | Some m => [1 :: N_of_bool (validate_machine m) :: Bincode.ser_machine m]
+  | None => [[0]]
+  end.
+
 (** entry point: tag 1 = framework case, 2 = validation case, 3 = sampling
-    case, 4 = transition-vector case *)
+    case, 4 = transition-vector case, 5-8 = codec cases *)
 Definition run_wire (l : list N) : list (list N) :=
   match l with
   | 1 :: rest =>
@@ -228,5 +244,9 @@ Definition run_wire (l : list N) : list (list N) :=
   | 2 :: rest => run_vcase rest
   | 3 :: rest => run_scase rest
   | 4 :: rest => run_tcase rest
+  | 5 :: rest => run_ser rest
+  | 6 :: rest => run_b64enc rest
+  | 7 :: rest => run_b64dec rest
+  | 8 :: rest => run_de rest
   | _ => [[98]]
   end.
